@@ -357,12 +357,12 @@ class Scen(CompScenario):
 class Prop(PropBase):
     ID = "C23"
     tiers = {
-        "quick": {"runs": 1600, "selftest_runs": 4, "shrink_budget_s": 5},
-        "thorough": {"runs": 26000, "selftest_runs": 32, "shrink_budget_s": 30},
+        "quick": {"runs": 2000, "selftest_runs": 4, "shrink_budget_s": 5},
+        "thorough": {"runs": 36000, "selftest_runs": 32, "shrink_budget_s": 30},
     }
     rule = ("one run = one (class, depth, row shape (width, signedness, array of elements), read/write port count, "
-            "init, transparency set per read port, granularity) configuration; the memory under test and an amaranth.lib.memory.Memory get the "
-            "same port signals for 60-200 cycles from a seeded phase plan (random / read-after-write at distance "
+            "init, transparency set per read port, granularity) configuration; the memory under test and an "
+            "amaranth.lib.memory.Memory get the same port signals for 60-200 cycles from a seeded phase plan (random / read-after-write at distance "
             "0-2 / alternating writers / dropped read enable / read collisions / idle) over a small per-phase row "
             "pool; distinct = distinct (configuration, per read port (enable, distance to the last write of its "
             "row, transparent for the writer), number of writes); non-trivial = an enabled read of a row written "
